@@ -8,9 +8,8 @@ git diff -- fortls > $OUT/patch.diff
 cp demo.py $OUT/demo.py 2>/dev/null
 echo "== demo with change"; PYTHONPATH=$WT timeout 600 /venv/bin/python demo.py > $OUT/demo_with.txt 2>&1; W=$?; echo "exit=$W"
 echo "== tests with change"; PYTHONPATH=$WT timeout 1200 /venv/bin/python -m pytest -q -p no:cacheprovider -n 8 --timeout=900 2>&1 | tail -1 | tee $OUT/tests_with.txt
-git stash -q
-echo "== demo without change"; PYTHONPATH=$WT timeout 600 /venv/bin/python demo.py > $OUT/demo_without.txt 2>&1; N=$?; echo "exit=$N"
-git stash pop -q
+echo "== demo without change (the unchanged /repo tree; no stash: stashes are shared between worktrees)"
+PYTHONPATH=/repo timeout 600 /venv/bin/python demo.py > $OUT/demo_without.txt 2>&1; N=$?; echo "exit=$N"
 echo "== check against the change on /repo"
 cd /repo && git apply $OUT/patch.diff && cd /verif && ./check $ID > $OUT/check_output.txt 2>&1; C=$?
 git -C /repo checkout -- . ; git -C /repo status --short | head -3
